@@ -53,9 +53,9 @@ Inductive case :=
 | CNode (f : forest) (calc : Z) (target : Z) (obj : list jv) (dt : list (jv * res info)) (next : Z).
 
 (* calc_data_id hooks of harness/build.py: 0 default hash, 1 "name", 2 "mod7" *)
-Definition calc_of (c : Z) : info -> did :=
-  if Z.eqb c 1 then (fun i => DStr (i_name i))
-  else if Z.eqb c 2 then (fun i => DInt (i_hash i mod 7))
+Definition calc_of (c : Z) : info -> res did :=
+  if Z.eqb c 1 then (fun i => inl (DStr (i_name i)))
+  else if Z.eqb c 2 then (fun i => if unhashable i then inr E_TYPE else inl (DInt (i_hash i mod 7)))
   else default_did.
 
 Definition sx_dump (l : list jv) : sx := L (map sx_jv l).
